@@ -48,7 +48,7 @@ def run(report, tier, seed):
         ybin = vlib.build_yardl(sc)
         rng = random.Random(seed * 6007 + 10)
         n = 700 if quick else 12000
-        cases = list(corpus_cases(sc)) + list(boundary_cases(rng, sc, quick)) + list(generate_cases(rng, sc, seed, n)) + list(layered_cases(rng, sc, 6 if quick else 40))
+        cases = list(corpus_cases(sc)) + list(cycle_cases(sc)) + list(boundary_cases(rng, sc, quick)) + list(generate_cases(rng, sc, seed, n)) + list(layered_cases(rng, sc, 6 if quick else 40))
         with concurrent.futures.ThreadPoolExecutor(max_workers=vlib.NCPU) as ex:
             results = list(ex.map(lambda c: execute(ybin, c), cases))
         for c, (rc, out, secs, cmd) in zip(cases, results):
@@ -267,6 +267,37 @@ def boundary_cases(rng, sc, quick):
                 k += 1
                 txt = tmpl.format(n=sign + str(n)) + "\nP: !protocol\n  sequence:\n    a: " + tmpl.split(":")[0] + "\n"
                 yield Case("boundary:yaml", sc.path(f"bnd{k}/pkg"), {"model.yml": txt}, man)
+
+
+# every expression form that can carry a reference to another computed field: a cycle of computed fields must be reported
+# whichever form it passes through ({f} is the reference; inline forms and !switch forms)
+CYCLE_CARRIERS = ['"{f} + 1"', '"1 - {f}"', '"-{f}"', '"({f})"', '"{f} as float64"', '"v[{f}]"', '"w[{f}]"', '"x[{f}, 0]"', '"x[p: 0, q: {f}]"', '"km[{f} as uint64]"',
+                  '"size(v, {f})"' if False else '"size(w) + {f}"', '"{f} * {f}"', '"a + ({f} - 1) * 2"',
+                  "\n      !switch o:\n        int i: i + {f}\n        _: 0", "\n      !switch o:\n        int: {f}\n        _: 0", "\n      !switch o:\n        int i: i\n        _: {f}",
+                  "\n      !switch u:\n        int i: {f}\n        string s: 0", "\n      !switch u:\n        int: 0\n        string s: {f}",
+                  "\n      !switch o:\n        int i:\n          !switch u:\n            int j: i + j + {f}\n            string s: 0\n        _: 0"]
+
+
+def cycle_cases(sc):
+    man = "namespace: Fz\n"
+    rec = ("R: !record\n  fields:\n    a: int\n    o: int?\n    u: [int, string]\n    x: !array {items: int, dimensions: [p, q]}\n    v: !vector {items: int, length: 3}\n"
+           "    w: int*\n    km: uint64->int\n  computedFields:\n")
+    k = 0
+    for carrier in CYCLE_CARRIERS:
+        for shape in ("self", "two", "three", "carrier-twice"):
+            k += 1
+            if shape == "self":
+                body = f"    c0: {carrier.format(f='c0')}\n"
+            elif shape == "two":
+                body = f"    c0: {carrier.format(f='c1')}\n    c1: c0\n"
+            elif shape == "three":
+                body = f"    c0: c1\n    c1: {carrier.format(f='c2')}\n    c2: c0 + 1\n"
+            else:
+                body = f"    c0: {carrier.format(f='c1')}\n    c1: {carrier.format(f='c0')}\n"
+            yield Case("directed:computed-field-cycle", sc.path(f"cyc{k}/pkg"), {"model.yml": rec + body}, man)
+        # the same carrier without a cycle is a valid model (or an ordinary type error): it must not hang either
+        k += 1
+        yield Case("directed:computed-field-chain", sc.path(f"cyc{k}/pkg"), {"model.yml": rec + f"    c0: {carrier.format(f='c1')}\n    c1: a + 1\n"}, man)
 
 
 def corpus_cases(sc):
